@@ -21,7 +21,7 @@ def const_preamble(r):
         used.add(n); lines.append("const %s = %s" % (n, r.choice(CONST_VALUES)))
     return "\n".join(lines) + "\n"
 
-TEXTS = ["Hello there", "aaaa aaa aa aaa aa aaa aa aaa aa aaa", "Price: 100$", "é ñ ü 𠮷野 😀", "{PLAYER} got {STR_VAR_1}!", "a\\nb\\lc\\pd", "x{y z}w }", "", "$", "ends\\0",
+TEXTS = ["Hello there", "100% sure %s %d", "ROUTE 1 \u3000PALLET \u00a0TOWN", "aaaa aaa aa aaa aa aaa aa aaa aa aaa", "Price: 100$", "é ñ ü 𠮷野 😀", "{PLAYER} got {STR_VAR_1}!", "a\\nb\\lc\\pd", "x{y z}w }", "", "$", "ends\\0",
          "tab\\there", "many   spaces   here", "LV. 50"]
 TYPES = ["", "", "ascii", "braille", "custom", "jp"]
 
@@ -56,7 +56,7 @@ def extras(r, k):
             steps = []
             for _ in range(r.randint(0, 6)):
                 st = r.choice(["walk_up", "walk_down", "face_left", "step_end", "delay_16", "delay_1", "K_ONE", "walk_up"])
-                if r.random() < 0.35: st += " * " + r.choice(["2", "1", "0x3", "010", "16", "9999", "0", "10000", "-1", "K_ONE"])
+                if r.random() < 0.35: st += " * " + r.choice(["2", "1", "0x3", "010", "16", "9999", "0", "10000", "-1", "K_ONE", "65537", "4294967297", "9223372036854775807"])
                 steps.append(st)
                 if r.random() < 0.2: steps.append(",")
                 if r.random() < 0.1: steps.append("poryswitch(V) { A: jump_a B {} _ { jump_b * 2 step_end } }")
@@ -72,7 +72,7 @@ def extras(r, k):
                 elif y < 0.6: ents.append("%s { lock msgbox(%s) %s release }" % (typ, lit(r), r.choice(["", "end", "if (flag(FLAG_A)) { a }", "while (var(VAR_A) < 3) { if (flag(FLAG_B)) { break } }"])))
                 else:
                     rows = []
-                    for q in range(r.randint(0, 3)):
+                    for q in range(r.randint(0, 3) if r.random() < 0.85 else r.randint(10, 13)):
                         rows.append("%s, %s%s" % (r.choice(["VAR_T", "VAR_A", "VAR_A + 1"]), r.choice(["0", "K_ONE", "K_ONE + 1", "0x2"]),
                                                     r.choice([": Ext_row%d" % q, " { lock msgbox(%s) release }" % lit(r), " { }"])))
                     ents.append("%s [\n    %s\n  ]" % (typ, "\n    ".join(rows)))
@@ -81,8 +81,10 @@ def extras(r, k):
             out.append("raw `\n%s\n`" % r.choice(["X%d_raw:\n\tnop\n\tend" % k, "@ é 😀 comment", "", "\t.byte 1, 2\n\n\t.byte 3"]))
         else:
             cmd = r.choice(["msgbox(%s)" % lit(r), "msgbox(%s, MSGBOX_X)" % fmt_call(r), "applymovement(1, moves(walk_up * 2 face_left))", "setvar(VAR_A, 0x1f)", "cmd(global)", "cmd(local)",
-                            "goto_if_set(FLAG_A, X%d_L)" % k, "random(3)", "special(Foo)", "call(X%d_0)" % k, "two(%s, %s)" % (lit(r), lit(r))])
-            cond = r.choice(["flag(FLAG_A)", "!defeated(TRAINER_A)", "var(VAR_A) >= value(0x4001)", "random(4) == 2 && flag(FLAG_A) || specialvar(VAR_X, 7) != 0", "checkitem(ITEM_A)", "var(VAR_B) != K_ONE"])
+                            "goto_if_set(FLAG_A, X%d_L)" % k, "random(3)", "special(Foo)", "call(X%d_0)" % k, "two(%s, %s)" % (lit(r), lit(r)), "price(PRICE_OF(ITEM_A, 2), %s)" % lit(r), "mv(OBJ(1, MAP_X), moves(walk_up * 2 face_left))",
+                            "goto_if_unset(FLAG_B, Ext_L)", "setvar(VAR_A, BASE-1)", "addvar(VAR_A, 10-3)"])
+            cond = r.choice(["flag(FLAG_A)", "!defeated(TRAINER_A)", "var(VAR_A) >= value(0x4001)", "random(4) == 2 && flag(FLAG_A) || specialvar(VAR_X, 7) != 0", "checkitem(ITEM_A)", "var(VAR_B) != K_ONE", "var(VAR_A) == TRUE", "var(VAR_B) != false", "!(var(VAR_A) != TRUE) && random(3) == FALSE",
+                            "flag(FLAG_A) && flag(FLAG_K) || flag(FLAG_B) && flag(FLAG_K)", "random(10) == 0 || random(10) == 0", "checkitem(ITEM_A) && flag(FLAG_A)"])
             wrap = r.choice(["{cmd}", "if ({cond}) {{ {cmd} }}", "while ({cond}) {{ {cmd} }}", "do {{ {cmd} }} while ({cond})",
                              "switch (var(VAR_A)) {{ case 1: case K_ONE + 1: {cmd} default: x case 0x3: }}", "X%d_L(global): {cmd} goto(X%d_L)" % (k, k)])
             b = wrap.format(cmd=cmd, cond=cond)
